@@ -100,6 +100,9 @@ def getattr(I, st, v, name):
             if m is not None:
                 yield st, bind_member(I, st, m, v, e.cls)
                 return
+            if where is not None:
+                yield st, None  # a class attribute whose value is None
+                return
             ga, _ = I.class_lookup(e.cls, "__getattr__")
             if ga is not None:
                 yield from I.call(ga, [v, name], {}, st)
@@ -140,6 +143,9 @@ def getattr(I, st, v, name):
             yield st, enum_member(I, st, v, name)
             return
         m, where = I.class_lookup(v, name)
+        if m is None and where is not None:
+            yield st, None  # a class attribute whose value is None
+            return
         if m is None:
             yield st, exc("AttributeError", "type object '%s' has no attribute '%s'" % (v.name, name))
             return
@@ -317,6 +323,9 @@ def getattr(I, st, v, name):
 
 def class_attr_for_instance(I, st, inst, cls, name):
     m, where = I.class_lookup(cls, name)
+    if m is None and where is not None:
+        yield st, None  # a class attribute whose value is None
+        return
     if m is None:
         if name == "__class__":
             yield st, cls
@@ -525,7 +534,10 @@ def list_method(I, st, ref, name):
 
     def sort(I, st, a, k):
         for st1, r in sorted_values(I, st, L(st), k.get("key"), k.get("reverse", False)):
-            if isinstance(r, Exc):
+            if isinstance(r, SortFailed):
+                st1.get(ref).items[:] = r.arrangement  # the list keeps the partially sorted arrangement
+                yield st1, r.exc
+            elif isinstance(r, Exc):
                 yield st1, r
             else:
                 st1.get(ref).items[:] = r
@@ -630,8 +642,97 @@ def obj_lt(I, st, k):
     return isinstance(k, Ref) and st.get(k).kind == "obj" and I.class_lookup(st.get(k).cls, "__lt__")[0] is not None
 
 
+class SortFailed:
+    """a comparison raised during list.sort(): the exception and the arrangement the list is left in"""
+
+    def __init__(self, exc_val, arrangement):
+        self.exc, self.arrangement = exc_val, arrangement
+
+
 def sort_objects(I, st, items, keys, reverse):
-    raise Unsupported("sorting objects by __lt__")
+    """list.sort / sorted over objects compared by their own __lt__ (symbolic outcomes fork): the EXACT sequence of
+    comparisons CPython (3.8-3.12) makes for fewer than 64 elements - count the initial run (strictly descending runs are
+    reversed), then binary insertion of the remaining elements.  No assumption that __lt__ is a consistent order.
+    yields (state, list) or (state, SortFailed) when a comparison raises."""
+    M = _m()
+    items, keys = list(items), list(keys)  # snapshots: the caller's list is rewritten per path while other paths are still pending
+    n = len(items)
+    if reverse:
+        raise Unsupported("sorting objects by __lt__ with reverse=True")
+    if n >= 64:
+        raise Unsupported("sorting 64 or more objects by __lt__ (merge phase not modelled)")
+    for kv in keys:
+        if M.obj_has(I, st, kv, "__gt__") is not None:
+            raise Unsupported("sorting objects whose class also defines __gt__")
+    I.trust("list.sort-objects", "A3: list.sort on < 64 objects = CPython's count_run + binary insertion sort, comparisons through __lt__ of the left operand")
+
+    def lt(s, a, b):
+        m = M.obj_has(I, s, keys[a], "__lt__")
+        for s1, r in list(I.call(m, [keys[a], keys[b]], {}, s)):
+            if isinstance(r, Exc):
+                yield s1, r
+                continue
+            if isinstance(r, Opaque):
+                raise Unsupported("__lt__ returned NotImplemented / an uninterpreted value during sort")
+            for s2, b2 in I.branch(s1, I.truth(r, s1)):
+                yield s2, b2
+
+    def run_len(s, idx, k, descending):
+        """idx[:k] is a run; extend it"""
+        if k == n:
+            yield s, k
+            return
+        for s1, r in lt(s, idx[k], idx[k - 1]):
+            if isinstance(r, Exc):
+                yield s1, r
+            elif bool(r) == descending:
+                yield from run_len(s1, idx, k + 1, descending)
+            else:
+                yield s1, k
+
+    def search(s, idx, pivot, l, r):
+        if not (l < r):
+            yield s, l
+            return
+        p = l + ((r - l) >> 1)
+        for s1, res in lt(s, pivot, idx[p]):
+            if isinstance(res, Exc):
+                yield s1, res
+            elif res:
+                yield from search(s1, idx, pivot, l, p)
+            else:
+                yield from search(s1, idx, pivot, p + 1, r)
+
+    def binsort(s, idx, start):
+        if start >= n:
+            yield s, idx
+            return
+        pivot = idx[start]
+        for s1, l in search(s, idx, pivot, 0, start):
+            if isinstance(l, Exc):
+                yield s1, SortFailed(l, idx)
+                continue
+            yield from binsort(s1, idx[:l] + [pivot] + idx[l:start] + idx[start + 1:], start + 1)
+
+    idx0 = list(range(n))
+    if n < 2:
+        yield st, list(items)
+        return
+    for s1, r in lt(st, 1, 0):
+        if isinstance(r, Exc):
+            yield s1, SortFailed(r, [items[i] for i in idx0])
+            continue
+        descending = bool(r)
+        for s2, k in run_len(s1, idx0, 2, descending):
+            if isinstance(k, Exc):
+                yield s2, SortFailed(k, [items[i] for i in idx0])
+                continue
+            idx = (idx0[:k][::-1] + idx0[k:]) if descending else list(idx0)
+            for s3, res in binsort(s2, idx, k):
+                if isinstance(res, SortFailed):
+                    yield s3, SortFailed(res.exc, [items[i] for i in res.arrangement])
+                else:
+                    yield s3, [items[i] for i in res]
 
 
 def dict_method(I, st, ref, name):
@@ -1211,6 +1312,8 @@ def make_builtins(I):
             return
         items = I.iterate(a[0], st)
         for st1, r in sorted_values(I, st, items, k.get("key"), k.get("reverse", False)):
+            if isinstance(r, SortFailed):
+                r = r.exc
             yield st1, (r if isinstance(r, Exc) else st1.alloc(ListE(r)))
 
     add("sorted", _sorted)
